@@ -155,6 +155,7 @@ func c28List(dir string) []string {
 // first error or at the first "last chunk" report, as the FSM does. It returns
 // what the dechunker produced.
 type c28Out struct {
+	rejected int // chunks refused while feeding went on (goOn mode)
 	err      error  // first WriteChunk error (rejection)
 	errAt    int    // index of rejected chunk
 	done     bool   // WriteChunk reported the last chunk
@@ -166,6 +167,13 @@ type c28Out struct {
 }
 
 func c28Feed(dir string, seq []*proto.LoadChunkRequest) (c28Out, error) {
+	return c28FeedMode(dir, seq, false)
+}
+
+// c28FeedMode with goOn=true keeps feeding after a rejected chunk, which is what the store's command
+// processor does (a failed WriteChunk is answered with an error and the dechunker stays registered for
+// its stream): a rejected chunk must have had no effect on what is reassembled afterwards.
+func c28FeedMode(dir string, seq []*proto.LoadChunkRequest, goOn bool) (c28Out, error) {
 	var o c28Out
 	d, err := NewDechunker(dir)
 	if err != nil {
@@ -175,6 +183,10 @@ func c28Feed(dir string, seq []*proto.LoadChunkRequest) (c28Out, error) {
 		o.fed++
 		last, err := d.WriteChunk(lc)
 		if err != nil {
+			if goOn {
+				o.rejected++
+				continue
+			}
 			o.err, o.errAt = err, i
 			break
 		}
@@ -519,6 +531,30 @@ func c28Mutations(r *kit.Run, dir, data, foreign string, c, idx int) {
 		// record when a sequence containing a foreign chunk is accepted at all.
 		r.Distinct(fmt.Sprintf("mut|%s|%s|n=%d", m.kind, outcome, len(own)))
 		r.SampleEvery(idx*3+len(m.seq), map[string]any{"mutation": rep, "outcome": outcome, "error": fmt.Sprint(out.err)})
+		// the same sequence with feeding continued past every rejected chunk
+		if out.err != nil {
+			r.Eval(1)
+			r.Transition(len(m.seq))
+			out2, err := c28FeedMode(dir, m.seq, true)
+			if err != nil {
+				r.Violation("C28:harness-io", "dechunker set-up failed: "+err.Error(), rep)
+				continue
+			}
+			oc2 := "incomplete"
+			switch {
+			case out2.closeErr != nil:
+				oc2 = "close-error"
+			case out2.done:
+				want := orig[out2.doneID]
+				if string(out2.bytes) == want {
+					oc2 = "completed-exact"
+				} else {
+					oc2 = "completed-wrong"
+					r.Violation("C28:rejected-chunk-had-an-effect:"+m.kind, fmt.Sprintf("data %q c=%d, sequence %s fed to the end with %d chunk(s) refused on the way: the dechunker then reported completion but the file holds %q, stream %s is %q", data, c, desc, out2.rejected, out2.bytes, ids[out2.doneID], want), rep)
+				}
+			}
+			r.Distinct(fmt.Sprintf("mut-goon|%s|%s|n=%d", m.kind, oc2, len(own)))
+		}
 	}
 }
 
